@@ -419,10 +419,6 @@ func (e *explorer) run() (states, transitions int, complete bool) {
 }
 
 func main() {
-	if ev.RacePass() {
-		racePass()
-		return
-	}
 	r := ev.Start("C14", "model_checking")
 	if r.Replay != "" {
 		replay(r)
